@@ -1,0 +1,20 @@
+//go:build verif
+
+package pypi
+
+// VerifEvalMarker parses a PEP 508 environment marker and evaluates it in the
+// fixed target environment with the given extras. It exists only for
+// verification builds.
+func VerifEvalMarker(raw string, extras map[string]bool) (ok bool, err error) {
+	m, err := parseMarker(raw)
+	if err != nil {
+		return false, err
+	}
+	return m.Eval(extras), nil
+}
+
+// VerifParseMarker reports whether the marker parses.
+func VerifParseMarker(raw string) error {
+	_, err := parseMarker(raw)
+	return err
+}
